@@ -975,6 +975,7 @@ class Interp:
             r.mconst = None if (a.mconst is None or b.mconst is None) else a.mconst * b.mconst
             return r
         if isinstance(op, (ast.Div, ast.FloorDiv)):
+            self.c.facts.setdefault("divs", []).append((self.f.key, node, a, b))
             if a.k == "log":
                 if b.k == "log":
                     return unk("ratio of log values")
